@@ -307,6 +307,10 @@ def _execute(src: str, n: int, tape: dict, opts: dict):
             super().__init__(*a, **k)
             lcds.append(self)
 
+        def glyph(self, slot, bitmap):
+            super().glyph(slot, bitmap)
+            emit("GLYPH", lcds.index(self), int(slot), list(self.glyphs[int(slot)]))
+
     Disp.LCD = LCD
 
     # ---- dynamic class membership reports
